@@ -1,5 +1,20 @@
 (* C02 — register values round-trip exactly through the wire encoding. *)
-From GV Require Import Base.Bytes Base.Hex Base.LE Base.HexFacts Vedirect.Frame Vedirect.FrameFacts.
+From GV Require Import Base.Bytes Base.Hex Base.LE Base.HexFacts Vedirect.Frame Vedirect.FrameFacts
+     Vedirect.Port Vedirect.Driver Vedirect.Resync Vedirect.ResyncFacts.
+
+(* DRIVER LEVEL.  A fresh or idle driver; the device answers the first attempt with optional
+   text-protocol noise (no ':') followed by the frame a conforming device sends for
+   (addr, v) — any hex case — cut into data events in ANY way: the raw accessor returns
+   exactly v after exactly one command frame.  (Through the refinement C04_refines.) *)
+Theorem C02_driver_roundtrip : forall c addr v pre body react s more,
+  oks s -> reactions (pt s) = react :: more ->
+  0 <= addr < 65536 -> ~ In c_colon pre -> valid_get_response addr v body ->
+  clean react = true ->
+  forallb (fun e => match e with RData _ => true | _ => false end) react = true ->
+  concat_data react = pre ++ c_colon :: body ++ [c_nl] ->
+  exists s', ve_command_get c true addr s = (Ok v, s') /\ nwrites (pt s') = S (nwrites (pt s)).
+Proof. exact conforming_exchange_returns_value. Qed.
+Print Assumptions C02_driver_roundtrip.
 
 Theorem C02_uint :
   forall w n, (w <= 8)%nat -> 0 <= n < 256 ^ Z.of_nat w -> le_uint (le_encode w n) = n.
